@@ -181,9 +181,12 @@ pub proof fn lemma_no_adj_replace_last(ts: Seq<Token>, t: Token)
 //@ensures label=tokens_partition_source props=C07
     tok_chain(r@, source@, source@.len() as int),
     no_adjacent_text(r@),
+//@ensures label=token_texts_concatenate_to_source props=C07
+    tok_concat(r@, r@.len() as int) == source.spec_bytes(),
 //@ensures label=tag_tokens_carry_both_delimiters props=C07,C08
     forall|i: int| 0 <= i < r@.len() ==> ((#[trigger] r@[i]).kind is Element
         ==> tag_span(source@, delimiter_start@, delimiter_end@, r@[i].start as int, r@[i].end as int)),
+//@strslice source
 //@fold 1 type="(Vec<Token<'a, 'b, 'c>>, State<'b, 'c>, usize, usize, usize)"
 //@fold 2 type="Vec<Token<'a, 'b, 'c>>"
 //@adapter 1 type="Option<(usize, char)>"
@@ -358,6 +361,7 @@ pub proof fn lemma_no_adj_replace_last(ts: Seq<Token>, t: Token)
         assert(tvs(__fl).len() == __fl.len());
         if __fl.len() > 0 { assert(__fl[__fl.len() - 1].end == source@.len()) by { reveal(tok_chain); } }
         else { reveal(tok_chain); }
+        lemma_tok_concat(__acc2@, source@, source.spec_bytes(), delimiter_start, delimiter_end, __acc2@.len() as int);
         lemma_tokenize_tagged(source@, delimiter_start@, delimiter_end@);
         let g = tokenize_spec(source@, delimiter_start@, delimiter_end@);
         assert forall|i: int| 0 <= i < __acc2@.len() implies ((#[trigger] __acc2@[i]).kind is Element
